@@ -62,6 +62,59 @@ def gen_cases(tier, seed):
             dist["words"][w[:20]] = dist["words"].get(w[:20], 0) + 1
         cases.append(("f%d" % cid, ["P"], ops))
         cid += 1
+    # histories: several sessions building watcher / selection state (watch, switch database, disconnect, reconnect)
+    # before data commands, each followed by the probe
+    nh = {"quick": 1500, "thorough": 30000, "search": 1500}[tier]
+    hcmds = ["watch k", "watch n", "watch p0", "unwatch k", "unwatch-all", "use-db d1 tok1", "use-db dp tokp", "use-db d3 tok3", "set k 1", "remove k",
+             "remove n", "increment n", "set n 5", "arbiter", "keys", "get k", "set-safe k 0 x", "remove p0", "watch $connections"]
+    for i in range(nh):
+        ops = list(setup)
+        live = [1, 2]
+        nxt = 4
+        for j in range(rng.randint(4, 14)):
+            r = rng.random()
+            if r < 0.12 and live:
+                sid = rng.choice(live); live.remove(sid)
+                ops.append(["disc", str(sid)])
+            elif r < 0.22:
+                ops.append(["conn"]); live.append(nxt); ops.append(C(nxt, rng.choice(["use-db d1 tok1", "use-db dp tokp"]))); nxt += 1
+            elif live:
+                ops.append(C(rng.choice(live), rng.choice(hcmds)))
+            ops.append(C(3, "set p%d v%d" % (j, j)))
+            ops.append(C(3, "get p%d" % j))
+        cases.append(("h%d" % i, ["P"], ops))
+    dist["histories"] = nh
+    # stale subscriptions: a session watches a key, moves to another database and disconnects (its subscription on
+    # the first database is never cleaned up); other sessions subscribe before/after; then the key is mutated
+    ns = {"quick": 400, "thorough": 6000, "search": 400}[tier]
+    for i in range(ns):
+        ops = list(setup)
+        key = rng.choice(["k", "n", "zz"])
+        dbx, tokx, dby, toky = rng.choice([("d1", "tok1", "dp", "tokp"), ("dp", "tokp", "d1", "tok1"), ("d1", "tok1", "d3", "tok3")])
+        nxt = 4
+        subs = []
+        for _ in range(rng.randint(1, 3)):
+            kind = rng.choice(["stale", "live", "stale"])
+            ops.append(["conn"]); sid = nxt; nxt += 1
+            ops.append(C(sid, "use-db %s %s" % (dbx, tokx)))
+            ops.append(C(sid, "watch %s" % key))
+            if kind == "stale":
+                ops.append(C(sid, "use-db %s %s" % (dby, toky)))
+                ops.append(["disc", str(sid)])
+            else:
+                subs.append(sid)
+        ops.append(["conn"]); w = nxt; nxt += 1
+        ops.append(C(w, "use-db %s %s" % (dbx, tokx)))
+        for j in range(rng.randint(1, 5)):
+            ops.append(C(w, rng.choice(["set %s 1" % key, "remove %s" % key, "increment %s" % key, "set-safe %s 0 x" % key, "set %s abc" % key, "unwatch-all", "watch %s" % key])))
+            ops.append(C(3, "set p%d v%d" % (j, j)))
+            ops.append(C(3, "get p%d" % j))
+        for sid in subs:
+            ops.append(["disc", str(sid)])
+        ops.append(C(w, "remove %s" % key))
+        ops.append(C(3, "set p9 v9")); ops.append(C(3, "get p9"))
+        cases.append(("w%d" % i, ["P"], ops))
+    dist["stale_subscriptions"] = ns
     return cases, dist
 
 
@@ -74,6 +127,8 @@ def oracle(case, io, mo):
         reply = obs[i][0]
         if reply == "PANIC":
             fails.append(("panic", "step %d: %r panicked" % (i, (line_of(op) or op[0])[:120])))
+        if op[0] == "disc" and reply != "Left":
+            fails.append(("disconnect-failed", "step %d: %s" % (i, reply)))
         if op[0] == "cmd" and op[1] == "3" and i >= 13:
             line = line_of(op)
             if line.startswith("set p") and reply != "Ok":
